@@ -11,6 +11,7 @@
             rank[e] = <<pet_some, pet_index, pet_k, mk_s, sel_some, sel_index, sel_tp_num, sel_tp_res, sel_sup_num, sel_sup_res>>
             pp[e]   = <<pet_hi, pet_lo, mk_hi, mk_lo, tp_hi, tp_lo, adj_hi, adj_lo>>
             aff[e]  = <<a, b, ts_some, slope_num, slope_res, icpt_num, icpt_res, med_some, med_num, med_res>>  (affine maps a*v+b)
+            big[e]  = <<exp, med_some, med_num, med_res>>   median of x * 2^exp, scaled back (extreme magnitudes, exact scaling)
      split  x, t: r[e] = <<some, p_num, p_res, sup_num, sup_res, swp_num, swp_res, swsup_num, swsup_res,
                            cp_num, cp_res, cs_num, cs_res, p_hi, p_lo>>
      bh     p = <<<<num, den>>, ..>>, q = <<num, den>>, m, panic, keep
@@ -72,11 +73,17 @@ AffRowOk(ex, row) ==
     /\ IF ex.n < 1 THEN row[8] = 0
        ELSE row[8] = 1 /\ Close(row[9], row[10], a * ex.med + 2 * b)
 
+\* median of the sample scaled by 2^row[1] (exact) and scaled back: <<exponent, some, num, res>>
+BigRowOk(ex, row) ==
+    IF ex.n < 1 THEN row[2] = 0
+    ELSE row[2] = 1 /\ Close(row[3], row[4], ex.med)
+
 SeqOk(r) ==
     LET ex == SeqExp(r.x) IN
     /\ \A e \in DOMAIN r.rank : RankRowOk(ex, r.rank[e])
     /\ \A e \in DOMAIN r.pp : PRowOk(ex, r.pp[e]) /\ r.pp[e] = r.pp[1]     \* rank-based: identical under every embedding
     /\ \A e \in DOMAIN r.aff : AffRowOk(ex, r.aff[e])
+    /\ \A e \in DOMAIN r.big : BigRowOk(ex, r.big[e])
     /\ r.frac = 0
 
 -----------------------------------------------------------------------------
